@@ -90,6 +90,12 @@ type Semantics interface {
 	NoReturn(info *types.Info, call *ast.CallExpr) bool
 }
 
+// NodeSemantics is an optional extension: effects of a whole CFG node,
+// applied before the calls inside it are evaluated.
+type NodeSemantics interface {
+	Node(info *types.Info, n ast.Node) []Effect
+}
+
 // UnitKind says how a function literal is used.
 type UnitKind int
 
@@ -177,6 +183,9 @@ type Engine struct {
 	SelectOf map[ast.Stmt]*ast.SelectStmt
 	MaxCount int
 	States   int
+	// NoSummaries: calls of analysed units have no effect on the caller's
+	// counters (used when classes are local to one function body).
+	NoSummaries bool
 }
 
 func NewEngine(sem Semantics, pkgs []*packages.Package) *Engine {
@@ -535,7 +544,7 @@ func (e *Engine) analyse(u *Unit) {
 							df := s2.defers[i]
 							recordCall(df.call, df.callee, "defer", d)
 							if df.callee != nil {
-								if sum := df.callee.Summary; sum != nil && sum.CondIdx < 0 {
+								if sum := df.callee.Summary; sum != nil && sum.CondIdx < 0 && !e.NoSummaries {
 									d = d.Add(sum.All)
 								}
 							} else {
@@ -773,7 +782,7 @@ func (e *Engine) transfer(u *Unit, info *types.Info, n ast.Node, s *state,
 				}
 				callee := e.calleeUnit(u, call)
 				recordCall(call, callee, "call", st.d)
-				if callee == nil || callee.Summary == nil {
+				if callee == nil || callee.Summary == nil || e.NoSummaries {
 					next = append(next, st)
 					continue
 				}
@@ -799,6 +808,12 @@ func (e *Engine) transfer(u *Unit, info *types.Info, n ast.Node, s *state,
 					st.with(st.d.Add(sum.NonNil), fmt.Sprintf("%s: call %s, result assumed non-nil => %s", e.pos(call.Pos()), callee.Name, e.fmtDelta(sum.NonNil))))
 			}
 			cur = next
+		}
+	}
+	if ns, ok := e.Sem.(NodeSemantics); ok {
+		if effs := ns.Node(info, n); len(effs) > 0 {
+			nd := s.d.apply(effs)
+			cur = []*state{s.with(nd, fmt.Sprintf("%s: %s", e.pos(n.Pos()), e.fmtDelta(nd)))}
 		}
 	}
 	nobind := func(*ast.CallExpr) (string, bool) { return "", false }
